@@ -4,6 +4,14 @@ SIM_NOTE = ("trusted base: the behavioural nRF24L01+ simulator (vlib/sim, self-t
             "driver; chip assumptions (a)-(e) of DESIGN.md 2.6")
 
 CHECKS = [
+    {"property_id": "C02", "level": "fault_enumeration",
+     "text": "every D/P/A outcome word over the (1+arc)(1+force_retry) attempts is enumerated for arc<=1 (quick) / arc<=2 "
+             "(thorough), force_retry<=1, x {auto-ack, ACK payload loaded/empty} x send_only x follow-up call, plus "
+             "no-ack modes and a deaf peer; Hypothesis histories (arc 0..15, all ard codes, force_retry 0..3, words to 64 "
+             "symbols, 1..6 calls incl. list input) beyond it; each call's result, attempt count, duration and every "
+             "on-air payload are judged against the medium's ground-truth log",
+     "design_ref": "4/C02", "note": SIM_NOTE,
+     "technique": "fault-sequence enumeration + Hypothesis-generated call histories against the simulator's ground-truth air log"},
     {"property_id": "C12", "level": "exploration",
      "text": "model-based: every op word to the stated depth over a 9-symbol alphabet (exhaustive) plus Hypothesis op lists "
              "to length 40 run in lock-step against an independent reference queue; absence beyond the explored histories "
